@@ -196,3 +196,310 @@ Qed.
 (* parse_lazy_value keeps an encoding as it is *)
 Theorem parse_lazy_value_enc v : wfb v = true -> top_ok v -> parse_lazy_value (enc v) = Ok (LRaw (enc v)).
 Proof. intros Hw Ht. unfold parse_lazy_value. rewrite (is_jsonb_enc v Hw Ht). reflexivity. Qed.
+
+(* ================================================================================================================ *)
+(* 1. Display for Value against to_string                                                                            *)
+Lemma escape_byte_high b : 128 <= b -> b < 256 -> escape_byte b = [b].
+Proof.
+  intros H1 H2. apply other_bytes_copied; [|lia|lia].
+  apply (TextRoundtrip.in_seq_N b 32 224); [lia|]. change (N.of_nat (32 + 224)) with 256. exact H2.
+Qed.
+Definition ascii_str_safe (b : N) : bool := ((32 <=? b) && (b <? 127)) || (b =? 9) || (b =? 10) || (b =? 13).
+Lemma debug_ascii_agrees b : b < 128 -> ascii_str_safe b = true -> debug_ascii b = escape_byte b.
+Proof.
+  assert (H : forallb (fun b => implb (ascii_str_safe b) (bytes_eqb (debug_ascii b) (escape_byte b)))
+                      (map N.of_nat (seq 0 128)) = true) by (vm_compute; reflexivity).
+  intros Hb Hs. rewrite forallb_forall in H.
+  assert (Hin : In b (map N.of_nat (seq 0 128))).
+  { apply (TextRoundtrip.in_seq_N b 0 128); [lia|]. change (N.of_nat (0 + 128)) with 128. exact Hb. }
+  specialize (H b Hin). rewrite Hs in H. cbn [implb] in H. apply bytes_eqb_true. exact H.
+Qed.
+
+Lemma debug_chars_safe : forall n s, (length s <= n)%nat -> display_safe_str s = true -> debug_chars s = flat_map escape_byte s.
+Proof.
+  induction n as [|n IH]; intros s Hl Hs.
+  - destruct s; [reflexivity|cbn [length] in Hl; lia].
+  - destruct s as [|b0 r]; [reflexivity|]. cbn [length] in Hl.
+    cbn [display_safe_str] in Hs. cbn [debug_chars flat_map].
+    destruct (b0 <? 128) eqn:E0.
+    + apply andb_true_iff in Hs. destruct Hs as [Ha Hr].
+      rewrite (debug_ascii_agrees b0) by (exact Ha || lia). rewrite (IH r) by (exact Hr || lia). reflexivity.
+    + destruct (b0 <? 224) eqn:E1.
+      * destruct r as [|b1 r1]; [discriminate Hs|]. cbn [length] in Hl.
+        repeat (apply andb_true_iff in Hs; destruct Hs as [Hs ?]).
+        unfold debug_multi. destruct (debug_escaped _); [discriminate|].
+        cbn [flat_map]. rewrite (escape_byte_high b0), (escape_byte_high b1) by lia.
+        rewrite (IH r1) by (assumption || lia). reflexivity.
+      * destruct (b0 <? 240) eqn:E2.
+        -- destruct r as [|b1 [|b2 r2]]; [discriminate Hs|discriminate Hs|]. cbn [length] in Hl.
+           repeat (apply andb_true_iff in Hs; destruct Hs as [Hs ?]).
+           unfold debug_multi. destruct (debug_escaped _); [discriminate|].
+           cbn [flat_map]. rewrite (escape_byte_high b0), (escape_byte_high b1), (escape_byte_high b2) by lia.
+           rewrite (IH r2) by (assumption || lia). reflexivity.
+        -- destruct r as [|b1 [|b2 [|b3 r3]]]; [discriminate Hs|discriminate Hs|discriminate Hs|]. cbn [length] in Hl.
+           repeat (apply andb_true_iff in Hs; destruct Hs as [Hs ?]).
+           unfold debug_multi. destruct (debug_escaped _); [discriminate|].
+           cbn [flat_map]. rewrite (escape_byte_high b0), (escape_byte_high b1), (escape_byte_high b2), (escape_byte_high b3) by lia.
+           rewrite (IH r3) by (assumption || lia). reflexivity.
+Qed.
+Lemma debug_str_safe s : display_safe_str s = true -> debug_str s = escape_string s.
+Proof. intros H. unfold debug_str, escape_string. rewrite (debug_chars_safe (length s) s (le_n _) H). reflexivity. Qed.
+
+Lemma raw_key_safe k : display_safe_key k = true -> raw_key k = escape_string k.
+Proof.
+  intros H. unfold raw_key, escape_string. f_equal. f_equal.
+  induction k as [|b r IH]; [reflexivity|]. cbn [display_safe_key forallb] in H. apply andb_true_iff in H. destruct H as [Hb Hr].
+  cbn [flat_map]. unfold display_safe_key_byte in Hb.
+  assert (E : escape_byte b = [b]).
+  { apply other_bytes_copied; [|lia|lia]. apply (TextRoundtrip.in_seq_N b 32 224); [lia|]. change (N.of_nat (32 + 224)) with 256. lia. }
+  rewrite E. cbn [app]. f_equal. apply IH. exact Hr.
+Qed.
+
+Section DisplayAgrees.
+  Variable pf : N -> list N.
+  Definition ditems : bool -> list value -> list N :=
+    fix go (first : bool) (l : list value) : list N :=
+      match l with
+      | [] => []
+      | x :: r => (if first then [] else [44]) ++ display pf x ++ go false r
+      end.
+  Definition dmembers : bool -> list (list N * value) -> list N :=
+    fix go (first : bool) (o : list (list N * value)) : list N :=
+      match o with
+      | [] => []
+      | (k, x) :: r => (if first then [] else [44]) ++ raw_key k ++ [58] ++ display pf x ++ go false r
+      end.
+  Lemma display_arr l : display pf (VArr l) = [91] ++ ditems true l ++ [93].
+  Proof. reflexivity. Qed.
+  Lemma display_obj o : display pf (VObj o) = [123] ++ dmembers true o ++ [125].
+  Proof. reflexivity. Qed.
+
+  Lemma display_is_render : forall v, display_safe v = true -> forall ind, display pf v = render pf false ind v.
+  Proof.
+    induction v as [|b|s|n|l IH|o IH] using value_ind2; intros Hs ind.
+    - reflexivity.
+    - destruct b; reflexivity.
+    - cbn [display render]. apply debug_str_safe. exact Hs.
+    - reflexivity.
+    - rewrite display_arr, (TextRoundtrip.render_arr pf false ind l). unfold TextRoundtrip.opening, TextRoundtrip.closing.
+      cbn [app]. f_equal. f_equal.
+      cbn [display_safe] in Hs. rewrite forallb_forall in Hs. rewrite Forall_forall in IH.
+      generalize true. induction l as [|x r IHr]; intros first; [reflexivity|].
+      cbn [ditems]. fold ditems. rewrite TextRoundtrip.ritems_cons. unfold TextRoundtrip.sep, TextRoundtrip.pad. cbn [app].
+      rewrite (IH x (or_introl eq_refl) (Hs x (or_introl eq_refl)) (ind + 2)%nat).
+      rewrite (IHr (fun y Hy => IH y (or_intror Hy)) (fun y Hy => Hs y (or_intror Hy)) false). reflexivity.
+    - rewrite display_obj, (TextRoundtrip.render_obj pf false ind o). unfold TextRoundtrip.opening, TextRoundtrip.closing.
+      cbn [app]. f_equal. f_equal.
+      cbn [display_safe] in Hs. rewrite forallb_forall in Hs. rewrite Forall_forall in IH.
+      generalize true. induction o as [|[k x] r IHr]; intros first; [reflexivity|].
+      cbn [dmembers]. fold dmembers. rewrite TextRoundtrip.rmembers_cons. unfold TextRoundtrip.sep, TextRoundtrip.pad, TextRoundtrip.colon. cbn [app].
+      pose proof (Hs (k, x) (or_introl eq_refl)) as Hkx. cbn [fst snd] in Hkx. apply andb_true_iff in Hkx. destruct Hkx as [Hk Hx].
+      rewrite (raw_key_safe k Hk).
+      pose proof (IH (k, x) (or_introl eq_refl) Hx (ind + 2)%nat) as IHx. cbn [snd] in IHx. rewrite IHx.
+      rewrite (IHr (fun y Hy => IH y (or_intror Hy)) (fun y Hy => Hs y (or_intror Hy)) false). reflexivity.
+  Qed.
+End DisplayAgrees.
+
+(* (a) the two renderers of the crate agree on values whose strings and keys need no escape that they spell differently *)
+Theorem display_agrees_with_to_string pf v : display_safe v = true -> display pf v = to_string_t pf v.
+Proof. intros H. exact (display_is_render pf v H 0%nat). Qed.
+
+(* the simple class is inside the class of the theorem *)
+Lemma plain_str_safe s : forallb plain_byte s = true -> display_safe_str s = true.
+Proof.
+  induction s as [|b r IH]; [reflexivity|]. cbn [forallb]. intros H. apply andb_true_iff in H. destruct H as [Hb Hr].
+  cbn [display_safe_str]. unfold plain_byte in Hb.
+  assert (E : b <? 128 = true) by lia. rewrite E. rewrite (IH Hr).
+  assert (E2 : (32 <=? b) && (b <? 127) = true) by lia. rewrite E2. reflexivity.
+Qed.
+Lemma plain_key_safe k : forallb plain_byte k = true -> display_safe_key k = true.
+Proof.
+  unfold display_safe_key. intros H. rewrite forallb_forall in *. intros b Hb. specialize (H b Hb).
+  unfold plain_byte in H. unfold display_safe_key_byte. lia.
+Qed.
+Lemma plain_value_safe : forall v, plain_value v = true -> display_safe v = true.
+Proof.
+  induction v as [|b|s|n|l IH|o IH] using value_ind2; intros H; try reflexivity.
+  - apply plain_str_safe. exact H.
+  - cbn [plain_value display_safe] in *. rewrite forallb_forall in *. rewrite Forall_forall in IH.
+    intros x Hx. exact (IH x Hx (H x Hx)).
+  - cbn [plain_value display_safe] in *. rewrite forallb_forall in *. rewrite Forall_forall in IH.
+    intros kv Hkv. specialize (H kv Hkv). apply andb_true_iff in H. destruct H as [Hk Hx].
+    rewrite (plain_key_safe _ Hk), (IH kv Hkv Hx). reflexivity.
+Qed.
+Theorem display_agrees_with_to_string_on_plain pf v : plain_value v = true -> display pf v = to_string_t pf v.
+Proof. intros H. apply display_agrees_with_to_string. apply plain_value_safe. exact H. Qed.
+
+(* through the byte walker: what to_string prints for the encoding is what Display prints for the decoded tree *)
+Lemma display_safe_normalise : forall v, display_safe (normalise v) = display_safe v.
+Proof.
+  induction v as [|b|s|n|l IH|o IH] using value_ind2; try reflexivity.
+  - cbn [normalise display_safe]. induction IH as [|x r Hx Hr IHr]; [reflexivity|]. cbn [map forallb]. rewrite Hx, IHr. reflexivity.
+  - cbn [normalise display_safe]. induction IH as [|kv r Hx Hr IHr]; [reflexivity|]. cbn [map forallb fst snd]. rewrite Hx, IHr. reflexivity.
+Qed.
+Theorem display_is_to_string_of_the_encoding pf v : wfb v = true -> top_ok v -> display_safe v = true ->
+  to_string_w' pf (enc v) = Ok (display pf (normalise v)).
+Proof.
+  intros Hw Ht Hs. rewrite (to_string_w_enc pf v Hw Ht). f_equal. symmetry. apply display_agrees_with_to_string.
+  rewrite display_safe_normalise. exact Hs.
+Qed.
+(* with the placeholder float printer of the correspondence (and with any printer that spells every NaN alike) the decoded
+   tree prints like the tree itself *)
+Lemma number_text_placeholder_normalise n : number_text float_placeholder (normalise_num n) = number_text float_placeholder n.
+Proof.
+  destruct n as [z|u|b]; cbn [normalise_num]; [|reflexivity|].
+  - destruct (z =? 0)%Z eqn:E; [|reflexivity]. apply Z.eqb_eq in E. subst z. reflexivity.
+  - destruct (f_is_nan b) eqn:E; [|reflexivity]. cbn [number_text]. unfold float_placeholder. rewrite E. reflexivity.
+Qed.
+Lemma display_t_normalise : forall v, display_t (normalise v) = display_t v.
+Proof.
+  unfold display_t. induction v as [|b|s|n|l IH|o IH] using value_ind2; try reflexivity.
+  - cbn [normalise display]. apply number_text_placeholder_normalise.
+  - cbn [normalise]. rewrite !display_arr. f_equal. f_equal. generalize true.
+    induction IH as [|x r Hx Hr IHr]; intros first; [reflexivity|]. cbn [map ditems]. fold (ditems float_placeholder).
+    rewrite Hx, IHr. reflexivity.
+  - cbn [normalise]. rewrite !display_obj. f_equal. f_equal. generalize true.
+    induction IH as [|[k x] r Hx Hr IHr]; intros first; [reflexivity|]. cbn [map dmembers fst snd]. fold (dmembers float_placeholder).
+    cbn [snd] in Hx. rewrite Hx, IHr. reflexivity.
+Qed.
+Theorem display_t_is_to_string_w v : wfb v = true -> top_ok v -> display_safe v = true ->
+  to_string_w (enc v) = Ok (display_t v).
+Proof.
+  intros Hw Ht Hs. unfold to_string_w. rewrite (display_is_to_string_of_the_encoding float_placeholder v Hw Ht Hs).
+  f_equal. apply display_t_normalise.
+Qed.
+
+(* (b) where they differ.  A key is written raw: a quote in a key ends the literal early and the text is not JSON; a control
+   character, DEL or a non-printable / combining char in a string gets Rust's escape, which JSON does not have. *)
+Example display_differs_key_with_quote :
+  let v := VObj [([97; 34; 98], VNum (NUInt 1))] in
+  wfb v = true /\
+  display_t v = [123; 34; 97; 34; 98; 34; 58; 49; 125] /\                    (* { QUOTE a QUOTE b QUOTE : 1 }: the key literal ends after a *)
+  to_string_t float_placeholder v = [123; 34; 97; 92; 34; 98; 34; 58; 49; 125] /\   (* the quote of the key escaped with a backslash *)
+  JsonText.parse_value (display_t v) <> Ok v /\ JsonText.parse_value (to_string_t float_placeholder v) = Ok v.
+Proof. vm_compute. repeat split; discriminate. Qed.
+Example display_differs_string_escapes :
+  let v := VStr [0; 1; 8; 12; 127; 194; 133; 204; 128; 226; 130; 172] in      (* NUL, U+0001, BS, FF, DEL, U+0085, U+0300, U+20AC *)
+  wfb v = true /\
+  display_t v = [34; 92; 48; 92; 117; 123; 49; 125; 92; 117; 123; 56; 125; 92; 117; 123; 99; 125; 92; 117; 123; 55; 102; 125;
+                 92; 117; 123; 56; 53; 125; 92; 117; 123; 51; 48; 48; 125; 226; 130; 172; 34] /\
+  to_string_t float_placeholder v = [34; 92; 117; 48; 48; 48; 48; 92; 117; 48; 48; 48; 49; 92; 98; 92; 102; 127; 194; 133; 204; 128; 226; 130; 172; 34].
+Proof. vm_compute. repeat split. Qed.
+Example display_agrees_example :
+  let v := VObj [([107; 127; 195; 169], VArr [VStr [97; 34; 92; 10; 9; 226; 130; 172]; VNum (NInt (-5)); VBool true; VNull])] in
+  wfb v = true /\ display_safe v = true /\ plain_value v = false /\ display_t v = to_string_t float_placeholder v /\
+  to_string_w (enc v) = Ok (display_t v).
+Proof. vm_compute. repeat split. Qed.
+
+(* ================================================================================================================ *)
+(* From<f32>: the widening `x as f64` is exact.  f32_scaled (section 3) is the value of a finite f32 pattern in units of
+   2^-149, Num.f_scaled that of a finite f64 pattern in units of 2^-1074; 1074 - 149 = 925. *)
+
+Lemma f_fields (sg : bool) A B : A < 2048 -> B < two52 ->
+  let R := (if sg then 9223372036854775808 else 0) + A * two52 + B in
+  f_sign R = sg /\ f_exp R = A /\ f_man R = B.
+Proof.
+  intros HA HB R. subst R. unfold f_sign, f_exp, f_man, two52 in *.
+  Ltac Zify.zify_post_hook ::= Z.div_mod_to_equations.
+  destruct sg; repeat split; lia.
+Qed.
+Ltac Zify.zify_post_hook ::= idtac.
+
+Lemma f_scaled_fields (sg : bool) A B : A < 2048 -> B < two52 ->
+  f_scaled ((if sg then 9223372036854775808 else 0) + A * two52 + B)
+  = (let mag := if A =? 0 then Z.of_N B else (Z.of_N (two52 + B) * 2 ^ (Z.of_N A - 1))%Z in if sg then (- mag)%Z else mag).
+Proof.
+  intros HA HB. destruct (f_fields sg A B HA HB) as (E1 & E2 & E3). unfold f_scaled. rewrite E1, E2, E3. reflexivity.
+Qed.
+
+Lemma f32_fields b : f32_exp b < 256 /\ f32_man b < two23.
+Proof.
+  unfold f32_exp, f32_man, two23. split; apply N.mod_lt; discriminate.
+Qed.
+
+Theorem f32_to_f64_exact b : f32_exp b <> 255 ->
+  f_scaled (f32_to_f64 b) = (f32_scaled b * 2 ^ 925)%Z /\ f_is_nan (f32_to_f64 b) = false /\ f_is_inf (f32_to_f64 b) = false.
+Proof.
+  intros He. destruct (f32_fields b) as [HE HM]. unfold f32_to_f64, f32_scaled.
+  set (e := f32_exp b) in *. set (m := f32_man b) in *. set (sg := f32_sign b).
+  apply N.eqb_neq in He. rewrite He.
+  destruct (e =? 0) eqn:E0.
+  - apply N.eqb_eq in E0. destruct (m =? 0) eqn:M0.
+    + apply N.eqb_eq in M0. rewrite M0.
+      replace (if sg then 9223372036854775808 else 0) with ((if sg then 9223372036854775808 else 0) + 0 * two52 + 0) by lia.
+      assert (H0 : 0 < 2048) by lia. assert (H1 : 0 < two52) by (unfold two52; lia).
+      destruct (f_fields sg 0 0 H0 H1) as (F1 & F2 & F3).
+      unfold f_is_nan, f_is_inf. rewrite (f_scaled_fields sg 0 0 H0 H1), F2, F3. cbn [N.eqb]. 
+      split; [destruct sg; reflexivity|split; reflexivity].
+    + apply N.eqb_neq in M0. set (p := N.log2 m).
+      assert (Hp : 2 ^ p <= m < 2 ^ N.succ p) by (apply N.log2_spec; lia).
+      assert (Hp22 : p <= 22).
+      { destruct (N.le_gt_cases p 22) as [H|H]; [exact H|]. exfalso.
+        assert (2 ^ 23 <= 2 ^ p) by (apply N.pow_le_mono_r; lia). change (2 ^ 23) with two23 in H0. lia. }
+      assert (Hpow : 2 ^ p * 2 ^ (52 - p) = two52).
+      { rewrite <- N.pow_add_r. replace (p + (52 - p)) with 52 by lia. reflexivity. }
+      set (P := 2 ^ p) in *. set (Q := 2 ^ (52 - p)) in *.
+      assert (HQ : 0 < Q) by (apply N.neq_0_lt_0; apply N.pow_nonzero; discriminate).
+      assert (Hsucc : 2 ^ N.succ p = 2 * P) by (rewrite N.pow_succ_r'; reflexivity).
+      assert (HB : (m - P) * Q < two52).
+      { rewrite <- Hpow. apply N.mul_lt_mono_pos_r; [exact HQ|lia]. }
+      assert (HA : p + 874 < 2048) by lia.
+      destruct (f_fields sg (p + 874) ((m - P) * Q) HA HB) as (F1 & F2 & F3).
+      unfold f_is_nan, f_is_inf. rewrite (f_scaled_fields sg (p + 874) ((m - P) * Q) HA HB), F2.
+      assert (Ne : (p + 874 =? 0) = false) by lia. rewrite Ne.
+      assert (Ne2 : (p + 874 =? 2047) = false) by lia. rewrite Ne2. cbn [andb].
+      split; [|split; reflexivity].
+      assert (Hm : two52 + (m - P) * Q = m * Q).
+      { rewrite <- Hpow. rewrite N.mul_sub_distr_r. assert (P * Q <= m * Q) by (apply N.mul_le_mono_r; lia). lia. }
+      rewrite Hm. rewrite N2Z.inj_mul. unfold Q. rewrite N2Z.inj_pow.
+      replace (Z.of_N (p + 874) - 1)%Z with (Z.of_N p + 873)%Z by lia.
+      replace (Z.of_N (52 - p)) with (52 - Z.of_N p)%Z by lia.
+      assert (X : (2 ^ (52 - Z.of_N p) * 2 ^ (Z.of_N p + 873) = 2 ^ 925)%Z).
+      { rewrite <- Z.pow_add_r by lia. f_equal. lia. }
+      change (Z.of_N 2) with 2%Z.
+      destruct sg.
+      * rewrite <- Z.mul_assoc, X. lia.
+      * rewrite <- Z.mul_assoc, X. reflexivity.
+  - apply N.eqb_neq in E0.
+    assert (HA : e + 896 < 2048) by lia.
+    assert (HB : m * 536870912 < two52) by (unfold two52, two23 in *; lia).
+    destruct (f_fields sg (e + 896) (m * 536870912) HA HB) as (F1 & F2 & F3).
+    unfold f_is_nan, f_is_inf. rewrite (f_scaled_fields sg (e + 896) (m * 536870912) HA HB), F2.
+    assert (Ne : (e + 896 =? 0) = false) by lia. rewrite Ne.
+    assert (Ne2 : (e + 896 =? 2047) = false) by lia. rewrite Ne2. cbn [andb].
+    split; [|split; reflexivity].
+    assert (Hm : two52 + m * 536870912 = (two23 + m) * 536870912) by (unfold two52, two23; lia).
+    rewrite Hm. rewrite N2Z.inj_mul.
+    replace (Z.of_N (e + 896) - 1)%Z with ((Z.of_N e - 1) + 896)%Z by lia.
+    rewrite Z.pow_add_r by lia.
+    change (Z.of_N 536870912) with (2 ^ 29)%Z.
+    assert (X : (2 ^ 29 * 2 ^ 896 = 2 ^ 925)%Z) by (rewrite <- Z.pow_add_r by lia; reflexivity).
+    destruct sg.
+    + transitivity (- (Z.of_N (two23 + m) * 2 ^ (Z.of_N e - 1) * (2 ^ 29 * 2 ^ 896)))%Z; [ring|rewrite X; ring].
+    + transitivity (Z.of_N (two23 + m) * 2 ^ (Z.of_N e - 1) * (2 ^ 29 * 2 ^ 896))%Z; [ring|rewrite X; ring].
+Qed.
+
+Theorem f32_to_f64_nonfinite b : f32_exp b = 255 ->
+  (f32_man b = 0 -> f32_to_f64 b = if f32_sign b then F_NEG_INF else F_INF) /\
+  (f32_man b <> 0 -> f_is_nan (f32_to_f64 b) = true /\ f_sign (f32_to_f64 b) = f32_sign b).
+Proof.
+  intros He. destruct (f32_fields b) as [_ HM]. unfold f32_to_f64. rewrite He. change (255 =? 255) with true. cbv iota.
+  set (m := f32_man b) in *. set (sg := f32_sign b). split.
+  - intros ->. change (0 =? 0) with true. cbv iota. destruct sg; reflexivity.
+  - intros Hm. apply N.eqb_neq in Hm. rewrite Hm.
+    set (L := N.lor (m * 536870912) 2251799813685248).
+    assert (HL : L < two52).
+    { change two52 with (2 ^ 52). apply lor_bound; [|reflexivity]. change (2 ^ 52) with two52. unfold two52, two23 in *. lia. }
+    assert (HL0 : L <> 0).
+    { intros H0. unfold L in H0. apply N.lor_eq_0_iff in H0. destruct H0 as [_ H0]. discriminate H0. }
+    assert (HA : 2047 < 2048) by lia.
+    destruct (f_fields sg 2047 L HA HL) as (F1 & F2 & F3).
+    unfold f_is_nan. rewrite F1, F2, F3. apply N.eqb_neq in HL0. rewrite HL0. split; reflexivity.
+Qed.
+
+Example f32_to_f64_examples :
+  f32_to_f64 1036831949 = 4591870180174331904 /\      (* 0.1f32 = 0x3DCCCCCD -> 0x3FB99999A0000000 *)
+  f32_to_f64 1 = 3936146074321813504 /\               (* the least subnormal 2^-149 -> 0x36A0000000000000 *)
+  f32_to_f64 8388607 = 4039728864677593088 /\         (* the greatest subnormal 0x007FFFFF -> 0x380FFFFFC0000000 *)
+  f32_to_f64 4286578688 = F_NEG_INF /\ f32_to_f64 2143289344 = F_NAN /\ f32_to_f64 2147483648 = 9223372036854775808.
+Proof. vm_compute. repeat split. Qed.
